@@ -688,6 +688,20 @@ fn flatten_glyph(context: &Context, glyph: &Glyph) -> Result<(), BadGlyph> {
         }
         inst.components = simple;
     }
+    // Composing the transforms of nested components changes the 2x2s: rebuild
+    // the glyph so the cached consistency / overflow flags are recomputed, and
+    // fall back to contours if the composed transforms are no longer
+    // representable (e.g. 1.5 * 1.5 = 2.25 is outside the F2Dot14 range and
+    // would otherwise be silently clamped by the backend).
+    let glyph = Glyph::new(
+        glyph.name.clone(),
+        glyph.emit_to_binary,
+        glyph.codepoints.clone(),
+        glyph.sources().clone(),
+    )?;
+    if !glyph.has_consistent_components() || glyph.has_overflowing_component_transforms() {
+        return convert_components_to_contours(context, &glyph);
+    }
     context.glyphs.set(glyph);
     Ok(())
 }
